@@ -234,13 +234,13 @@
     // ---- Tier 2: FIPS 204 Algorithm 6 (KeyGen_internal) over the key structs
     pub open spec fn vec_ints<const N: usize>(v: [R; N]) -> Seq<Seq<int>> { Seq::new(N as nat, |i: int| poly_ints(v[i].0)) }
     // t = NTT^-1(A o NTT(s1)) + s2, reduced into [0, q)
-    pub open spec fn kg_t<const K: usize, const L: usize>(a: [[T; L]; K], s1: [R; L], s2: [R; K], k: int, n: int) -> int {
-        (sgn_w(a, vec_ints(s1), k)[n] + s2[k].0[n] as int) % (Q as int)
+    pub open spec fn kg_t<const K: usize, const L: usize>(a: [[T; L]; K], s1: Seq<Seq<int>>, s2: Seq<Seq<int>>, k: int, n: int) -> int {
+        (sgn_w(a, s1, k)[n] + s2[k][n]) % (Q as int)
     }
-    pub open spec fn kg_t1<const K: usize, const L: usize>(a: [[T; L]; K], s1: [R; L], s2: [R; K]) -> Seq<Seq<int>> {
+    pub open spec fn kg_t1<const K: usize, const L: usize>(a: [[T; L]; K], s1: Seq<Seq<int>>, s2: Seq<Seq<int>>) -> Seq<Seq<int>> {
         Seq::new(K as nat, |k: int| Seq::new(256, |n: int| spec_power2round(kg_t(a, s1, s2, k, n)).0))
     }
-    pub open spec fn kg_t0<const K: usize, const L: usize>(a: [[T; L]; K], s1: [R; L], s2: [R; K]) -> Seq<Seq<int>> {
+    pub open spec fn kg_t0<const K: usize, const L: usize>(a: [[T; L]; K], s1: Seq<Seq<int>>, s2: Seq<Seq<int>>) -> Seq<Seq<int>> {
         Seq::new(K as nat, |k: int| Seq::new(256, |n: int| spec_power2round(kg_t(a, s1, s2, k, n)).1))
     }
     pub open spec fn kg_wit<const K: usize, const L: usize>(xi: Seq<u8>, eta: int, pk: PublicKey<K, L>, sk: PrivateKey<K, L>,
@@ -249,11 +249,11 @@
         &&& pk.rho@ == stream_take(st, 0, 32) && sk.rho@ == pk.rho@ && sk.cap_k@ == stream_take(st, 96, 32)
         &&& expand_a_rel(pk.rho@, a)
         &&& expand_s_rel(stream_take(st, 32, 64), eta, s1, s2)
-        &&& pk_coefs_ok(pk, kg_t1(a, s1, s2))
-        &&& sk_coefs_ok(sk, eta, vec_ints(s1), vec_ints(s2), kg_t0(a, s1, s2))
+        &&& pk_coefs_ok(pk, kg_t1(a, vec_ints(s1), vec_ints(s2)))
+        &&& sk_coefs_ok(sk, eta, vec_ints(s1), vec_ints(s2), kg_t0(a, vec_ints(s1), vec_ints(s2)))
         // tr = H(pkEncode(rho, t1), 64)
         &&& pkb.len() == 32 + 320 * K && pkb.subrange(0, 32) == pk.rho@
-        &&& forall|i: int, j: int| 0 <= i < K && 0 <= j < 256 ==> #[trigger] field(pk_t1_bytes(pkb, i), 10, j) == kg_t1(a, s1, s2)[i][j]
+        &&& forall|i: int, j: int| 0 <= i < K && 0 <= j < 256 ==> #[trigger] field(pk_t1_bytes(pkb, i), 10, j) == kg_t1(a, vec_ints(s1), vec_ints(s2))[i][j]
         &&& pk.tr@ == stream_take(shake256(pkb), 0, 64) && sk.tr@ == pk.tr@
     }
     pub open spec fn keygen_spec<const K: usize, const L: usize>(xi: Seq<u8>, eta: int, pk: PublicKey<K, L>, sk: PrivateKey<K, L>) -> bool {
